@@ -1,4 +1,14 @@
-"""Path exploration context: decisions, path condition, incremental solver."""
+"""Path exploration context: decisions, path condition, solvers, obligations.
+
+Quantifiers.  Universally quantified *assumptions* (class invariants, loop invariants, callee
+postconditions, definitional axioms of the builtin models) are kept apart from the quantifier-free
+path condition.  Each such fact is also instantiated by hand on every relevant ground term of its
+sort (keys used in map/set operations, arguments, skolem constants of goals) - a small,
+predictable E-matching.  An obligation `forall x. P(x)` is skolemised.  Discharge is two-stage:
+(1) quantifier-free pc + instances; `unsat` => PROVED (fewer assumptions, hence sound);
+(2) otherwise the full pc including the quantified facts; `unsat` => PROVED, `sat` => REFUTED;
+`unknown` after a stage-1 `sat` => REFUTED with the stage-1 model marked `candidate`.
+"""
 from __future__ import annotations
 
 import hashlib
@@ -10,6 +20,7 @@ import time
 import z3
 
 REPO = os.environ.get("PYVC_REPO", "/repo")
+OB_TIMEOUT_MS = int(os.environ.get("PYVC_OB_TIMEOUT_MS", "20000"))
 
 
 class PathEnd(Exception):
@@ -46,25 +57,30 @@ class Ctx:
     """One path of one symbolic run.  Re-created for each path; `prefix` replays decisions."""
 
     FEAS_TIMEOUT_MS = 3000
+    dry = False
+    keep_smt = False
 
     def __init__(self, prefix, stats):
         self.prefix = list(prefix)
         self.pos = 0
         self.decisions = []          # list of ints (choice index)
-        self.arity = []
-        self.pc = []                 # z3 Bool terms
+        self.pc = []                 # quantifier-free part of the path condition
+        self.qfacts = []             # universally quantified assumptions (z3 terms)
+        self.facts = []              # (sort key, ty, fn(term) -> value) hand-instantiated facts
+        self.pool = {}               # sort key -> [ground terms]
+        self._pool_seen = set()
         self.solver = z3.Solver()
         self.solver.set("timeout", self.FEAS_TIMEOUT_MS)
         self.sig = []                # path signature parts (site, choice)
         self.pending = []            # sibling prefixes discovered on this path
         self.stats = stats
         self.heap = None             # set by heap.Heap
-        self.fresh_n = 0
-        self.obligations = []        # filled by verify
+        self.obligations = []
         self.names = {}
-        self.spec_mode = 0           # >0 while evaluating a spec clause
-        self.notes = []
-        self.ghost_hooks = {}
+        self.spec_mode = 0
+        self.inputs = []
+        self.pre_state = None
+        self.ghost_args = {}
 
     # ------------------------------------------------------------------ naming
     def fresh(self, base, sort):
@@ -84,8 +100,64 @@ class Ctx:
             return
         if z3.is_false(term):
             raise PathEnd("assumed False")
+        if z3.is_quantifier(term) and term.is_forall():
+            self.qfacts.append(term)
+            return
+        if z3.is_and(term):
+            for ch in term.children():
+                self.assume(ch)
+            return
         self.pc.append(term)
         self.solver.add(term)
+
+    def assume_value(self, v):
+        """Assume a clause value; top-level `forall`s become hand-instantiated facts."""
+        from .sym import to_z3_bool
+        k = getattr(v, "_q_kind", None)
+        if k == "forall":
+            self.qfacts.append(v.t)
+            key = str(v.ty.sort())
+            # the fact speaks about the heap as it is NOW: later instantiations must read this state
+            snap = self.heap.snapshot() if self.heap is not None else None
+            self.facts.append((key, v.ty, v.body, snap))
+            for t in list(self.pool.get(key, ())):
+                self._instantiate(v.ty, v.body, t, snap)
+            return
+        if k == "conj":
+            for p in v.parts:
+                self.assume_value(p)
+            return
+        self.assume(to_z3_bool(v))
+
+    def _instantiate(self, ty, body, term, snap):
+        from .spec import _wrap_quant
+        self.spec_mode += 1
+        live = self.heap.st if self.heap is not None else None
+        if snap is not None:
+            self.heap.st = snap.copy()
+        try:
+            r = body(_wrap_quant(ty, term))
+            # nested foralls produced by the body also speak about the snapshot state
+            self._assume_in_state(r)
+        finally:
+            if snap is not None:
+                self.heap.st = live
+            self.spec_mode -= 1
+
+    def _assume_in_state(self, r):
+        self.assume_value(r)
+
+    def note_term(self, term, ty=None):
+        """Register a ground term as relevant: every fact of its sort is instantiated on it."""
+        key = str(term.sort())
+        h = (key, term.get_id())
+        if h in self._pool_seen:
+            return
+        self._pool_seen.add(h)
+        self.pool.setdefault(key, []).append(term)
+        for k, fty, body, snap in list(self.facts):
+            if k == key:
+                self._instantiate(fty, body, term, snap)
 
     def feasible(self):
         t0 = time.time()
@@ -149,8 +221,122 @@ class Ctx:
         return k == 0
 
     def signature(self):
-        h = hashlib.sha1(repr(self.sig).encode()).hexdigest()[:10]
-        return h
+        return hashlib.sha1(repr(self.sig).encode()).hexdigest()[:10]
+
+    # ------------------------------------------------------------------ obligations
+    def _goal_term(self, v):
+        """Skolemise top-level foralls of a goal; returns a z3 Bool."""
+        from .sym import to_z3_bool
+        from .spec import _wrap_quant
+        k = getattr(v, "_q_kind", None)
+        if k == "forall":
+            sk = self.fresh("sk_" + v.name, v.ty.sort())
+            self.note_term(sk)
+            self.spec_mode += 1
+            try:
+                r = v.body(_wrap_quant(v.ty, sk))
+            finally:
+                self.spec_mode -= 1
+            return self._goal_term(r)
+        if k == "conj":
+            return z3.And(*[self._goal_term(p) for p in v.parts])
+        t = to_z3_bool(v)
+        self._note_indices(t)
+        return t
+
+    def _note_indices(self, term):
+        """Ground index terms of select applications in a goal become instantiation terms."""
+        if not self.facts:
+            return
+        sorts = {f[0] for f in self.facts}
+        seen = set()
+        stack = [term]
+        found = []
+        while stack and len(seen) < 4000:
+            t = stack.pop()
+            i = t.get_id()
+            if i in seen:
+                continue
+            seen.add(i)
+            if z3.is_quantifier(t):
+                continue
+            if z3.is_app(t):
+                if z3.is_select(t):
+                    idx = t.arg(1)
+                    if str(idx.sort()) in sorts:
+                        found.append(idx)
+                stack.extend(t.children())
+        for idx in found:
+            self.note_term(idx)
+
+    def oblige(self, name, value, kind="post", info=None):
+        """Record and discharge one proof obligation: pc ==> value.  Afterwards the clause is
+        assumed (assert-then-assume), so one failure does not cascade."""
+        t0 = time.time()
+        term = self._goal_term(value)
+        simp = z3.simplify(term)
+        rec = {"name": name, "kind": kind, "path": self.signature(), "verdict": None, "time_s": 0.0,
+               "solver": "z3", "model": None, "smt": None, "goal": None}
+        if info:
+            rec["info"] = info
+        gtxt = str(simp)
+        rec["goal"] = gtxt if len(gtxt) < 600 else gtxt[:600] + "..."
+        rec["trivial"] = bool(z3.is_true(simp))
+        if z3.is_true(simp):
+            rec["verdict"] = "PROVED"
+        elif self.dry:
+            rec["verdict"] = "SKIPPED"
+        else:
+            s = self.solver
+            s.push()
+            s.add(z3.Not(term))
+            s.set("timeout", OB_TIMEOUT_MS if kind != "canary" else 5000)
+            r1 = s.check()
+            m1 = s.model() if r1 == z3.sat else None
+            if self.keep_smt:
+                rec["smt"] = s.to_smt2()
+            s.pop()
+            s.set("timeout", self.FEAS_TIMEOUT_MS)
+            r = r1
+            rec["solver"] = "z3/qf+instances"
+            if r1 != z3.unsat and kind != "canary" and (self.qfacts or r1 == z3.unknown):
+                s2 = z3.Solver()
+                s2.set("timeout", OB_TIMEOUT_MS)
+                s2.add(*self.pc)
+                s2.add(*self.qfacts)
+                s2.add(z3.Not(term))
+                r2 = s2.check()
+                rec["solver"] = "z3/full"
+                if r2 == z3.unsat:
+                    r = z3.unsat
+                elif r2 == z3.sat:
+                    r = z3.sat
+                    m1 = s2.model()
+                else:
+                    if r1 == z3.sat:
+                        r = z3.sat
+                        rec["candidate"] = True      # satisfies every instance, full check unknown
+                    else:
+                        r = z3.unknown
+            if r == z3.sat and m1 is not None:
+                rec["model"] = self.describe_model(m1)
+            rec["verdict"] = "PROVED" if r == z3.unsat else "REFUTED" if r == z3.sat else "UNDECIDED"
+        rec["time_s"] = round(time.time() - t0, 4)
+        self.obligations.append(rec)
+        if kind == "canary":
+            return rec
+        if not rec["trivial"]:
+            self.assume_value(value)
+            if rec["verdict"] != "PROVED" and self.solver.check() == z3.unsat:
+                raise PathEnd("path ends after failed obligation")
+        return rec
+
+    def describe_model(self, model):
+        from .replay import decode_model
+        try:
+            return decode_model(self, model)
+        except Exception as e:          # decoding must never mask the verdict
+            return {"undecodable": f"{type(e).__name__}: {e}"}
 
 
 _site_cache = {}
@@ -203,82 +389,3 @@ def explore(run, max_paths=4000, stats=None):
         work.extend(ctx.pending)
     stats["paths"] = stats.get("paths", 0) + n
     return results
-
-
-# ============================================================================ obligations
-OB_TIMEOUT_MS = int(os.environ.get("PYVC_OB_TIMEOUT_MS", "20000"))
-
-
-def _oblige(self, name, value, kind="post", info=None):
-    """Record and discharge one proof obligation: pc ==> value.  Afterwards `value` is assumed
-    (assert-then-assume), so one failure does not cascade."""
-    from .sym import to_z3_bool
-    term = to_z3_bool(value)
-    t0 = time.time()
-    simp = z3.simplify(term)
-    rec = {"name": name, "kind": kind, "path": self.signature(), "verdict": None, "time_s": 0.0,
-           "solver": "z3", "model": None, "smt": None, "goal": None}
-    if info:
-        rec["info"] = info
-    gtxt = str(simp)
-    rec["goal"] = gtxt if len(gtxt) < 600 else gtxt[:600] + "..."
-    rec["trivial"] = bool(z3.is_true(simp))
-    if z3.is_true(simp):
-        rec["verdict"] = "PROVED"
-    elif self.dry:
-        rec["verdict"] = "SKIPPED"
-    else:
-        s = self.solver
-        s.push()
-        s.add(z3.Not(term))
-        s.set("timeout", OB_TIMEOUT_MS)
-        r = s.check()
-        if r == z3.unknown:
-            # second attempt: fresh solver, different seed
-            s2 = z3.Solver()
-            s2.set("timeout", OB_TIMEOUT_MS * 2)
-            s2.set("random_seed", 7)
-            s2.add(*self.pc)
-            s2.add(z3.Not(term))
-            r = s2.check()
-            if r == z3.sat:
-                rec["model"] = self.describe_model(s2.model())
-            rec["solver"] = "z3(retry)"
-        elif r == z3.sat:
-            rec["model"] = self.describe_model(s.model())
-        if self.keep_smt:
-            rec["smt"] = s.to_smt2()
-        s.pop()
-        s.set("timeout", self.FEAS_TIMEOUT_MS)
-        rec["verdict"] = "PROVED" if r == z3.unsat else "REFUTED" if r == z3.sat else "UNDECIDED"
-    rec["time_s"] = round(time.time() - t0, 4)
-    self.obligations.append(rec)
-    if kind == "canary":
-        pass
-    elif rec["verdict"] == "PROVED" and not rec["trivial"]:
-        self.pc.append(term)
-        self.solver.add(term)
-    elif rec["verdict"] != "PROVED":
-        # keep exploring under the assumption that the clause holds
-        self.pc.append(term)
-        self.solver.add(term)
-        if self.solver.check() == z3.unsat:
-            raise PathEnd("path ends after failed obligation")
-    return rec
-
-
-def _describe_model(self, model):
-    out = {}
-    for label, ty, term in self.inputs:
-        try:
-            out[label] = ty.concretize(model, term)
-        except Exception as e:          # decoding must never mask the verdict
-            out[label] = f"<undecodable: {type(e).__name__}: {e}>"
-    return out
-
-
-Ctx.oblige = _oblige
-Ctx.describe_model = _describe_model
-Ctx.dry = False
-Ctx.keep_smt = False
-Ctx.inputs = ()
